@@ -4,6 +4,7 @@
   (namespace `Ft.C07`, model in FtModel/Traverse.lean).
 -/
 import FtProofs.Lemmas.Traverse
+import FtProofs.C12
 set_option linter.unusedSectionVars false
 set_option linter.unusedSimpArgs false
 set_option linter.unusedVariables false
@@ -185,6 +186,137 @@ theorem coiterRangeShapeRef_reiterable (mk : π) (fs : List (Fib Int π)) (hs : 
 
 end shape
 
+/-! ### `__iter__`: default iteration follows the rank's format -/
+section dispatch
+variable {π : Type}
+
+/-- **`__iter__`** on a compressed rank ("C") is occupancy iteration — the non-empty elements,
+    each with its storage position; on an uncompressed rank ("U") it is dense iteration of the
+    active range — every coordinate with the stored payload or the default.  A valid shortcut
+    (only empty elements before it) changes nothing; "U" ignores the shortcut altogether. -/
+theorem iter_dispatch (emp : π → Bool) (mk : π) (cfg : Cfg) (sp : Option Nat) (f : Fib Int π) (hs : Sorted f)
+    (hv : ∀ i, sp = some i → cfg.fmt = .U ∨ validStart emp none none i f = true) :
+    iterDefault emp mk cfg sp f = iterDefaultSpec emp mk cfg f ∧
+    iterDefaultSpec emp mk cfg f =
+      (match cfg.fmt with
+       | .C => stored ((withPos f).filter (fun x => !emp x.2.2))
+       | .U => shapeSpec mk f (pyRange (getActive cfg f).1 (getActive cfg f).2 1)) := by
+  refine ⟨?_, by unfold iterDefaultSpec; cases cfg.fmt <;> rfl⟩
+  cases hf : cfg.fmt with
+  | U => exact iterDefault_U emp mk cfg hf hs sp
+  | C =>
+    cases sp with
+    | none => exact iterDefault_C emp mk cfg hf f
+    | some i =>
+      rcases hv i rfl with h | h
+      · rw [hf] at h; cases h
+      · exact iterDefault_C_sp emp mk cfg hf hs i h
+
+/-- the two modes agree on what is there: the non-empty part of the dense traversal of `[a, b)`
+    is the occupancy traversal clipped to `[a, b)` (same payload objects, same positions). -/
+theorem shape_nonempty_is_range (emp : π → Bool) (mk : π) (hmk : emp mk = true) (f : Fib Int π) (hs : Sorted f)
+    (a b : Int) :
+    (shapeSpec mk f (pyRange a b 1)).filter (fun x => !emp x.2.2) =
+      stored (rangeSpec (fun ip : Nat × π => emp ip.2) (some a) (some b) (withPos f)) := by
+  rw [shape_nonempty_eq_range emp mk hmk hs]
+  congr 1
+  apply filter_congr'
+  intro x _
+  simp only [inSlice, geStart, geEnd, Bool.not_not]
+  by_cases h1 : x.1 < a
+  · have : ¬ a ≤ x.1 := by omega
+    simp [h1, this]
+  · have : a ≤ x.1 := by omega
+    simp [h1, this]
+
+end dispatch
+
+/-! ### lazy fibers: projection, pruning, materialisation -/
+section lazy
+variable {π : Type}
+
+/-- **what a projection has to deliver**: `r` is an element of `projectSpec` iff it is one of the
+    fiber's stored non-empty elements (`f[i] = (c, p)`, the same payload object) under the
+    transformed coordinate `k*c + m`, the latter lying in the interval (and in the range the
+    result is iterated with); and the list is strictly ascending, for increasing (`k > 0`) and
+    decreasing (`k < 0`) transforms alike. -/
+theorem projectSpec_meaning (emp : π → Bool) (k m : Int) (hk : k ≠ 0) (iv : Option (Int × Int)) (os oe : Option Int)
+    (f : Fib Int π) (hs : Sorted f) :
+    Sorted (projectSpec emp k m iv os oe f) ∧
+    ∀ r, r ∈ projectSpec emp k m iv os oe f ↔
+      ∃ c i p, f[i]? = some (c, p) ∧ emp p = false ∧ inIv iv (k * c + m) = true ∧
+        geStart os (k * c + m) = true ∧ geEnd oe (k * c + m) = false ∧ r = (k * c + m, (some i, p)) :=
+  ⟨projectSpec_sorted emp hk m iv os oe hs, mem_projectSpec emp k m iv os oe f⟩
+
+/-- **`project`** (affine `c ↦ k*c + m`, optional interval, optional shortcut; the lazy result
+    iterated by `__iter__` or `iterRange(os, oe)`) delivers `projectSpec`.
+    PARTIAL — three classes the code gets wrong are excluded by `h1 h2 h3` (open findings):
+    `h1` a fiber whose stored elements are all empty (`next()` on an exhausted generator),
+    `h2` a decreasing transform on a leaf rank whose default differs from the wrapper's default 0,
+    `h3` a shortcut the source-space assertion rejects.  Domain: a shortcut is only claimed for
+    increasing transforms and must be valid (`projValidStart`); an uncompressed rank holds no
+    content outside its active range. -/
+theorem project_spec_partial (emp wemp : π → Bool) (mk : π) (hmk : emp mk = true) (cfg : Cfg) (k m : Int) (hk : k ≠ 0)
+    (iv : Option (Int × Int)) (sp : Option Nat) (os oe : Option Int) (f : Fib Int π) (hs : Sorted f)
+    (hU : cfg.fmt = .C ∨ withinActive emp cfg f = true)
+    (hsp : ∀ i, sp = some i → 0 < k ∧ projValidStart emp k m iv i f = true)
+    (h1 : noStop emp f = true)
+    (h2 : 0 < k ∨ ∀ x ∈ f, wemp x.2 = emp x.2)
+    (h3 : projStartOk iv sp f = true) :
+    project emp wemp mk cfg k m iv sp os oe f = .ok (projectSpec emp k m iv os oe f) := by
+  by_cases hneg : k < 0
+  · cases sp with
+    | some i => have := (hsp i rfl).1; omega
+    | none =>
+      rcases h2 with h2 | h2
+      · omega
+      · exact project_rev emp wemp mk cfg hneg m iv os oe hs h1 h2
+  · have hpos : 0 < k := by omega
+    cases hf : cfg.fmt with
+    | U =>
+      have hin : withinActive emp cfg f = true := by
+        rcases hU with h | h
+        · rw [hf] at h; cases h
+        · exact h
+      exact project_fwd_U emp wemp mk hmk cfg hf hpos m iv sp os oe hs h1 h3 hin
+    | C =>
+      cases sp with
+      | none => exact project_fwd_C emp wemp mk cfg hf hpos m iv os oe hs h1
+      | some i => exact project_fwd_C_sp emp wemp mk cfg hf hpos m iv i os oe hs h1 h3 (hsp i rfl).2
+
+/-- **`prune`**: the lazy result delivers the non-empty elements of the default traversal that
+    `trans_fn(i, c, p)` accepts (`i` = rank in that traversal), clipped to the range the result
+    is iterated with; a legal valid shortcut changes nothing. (A `None` answer is treated like
+    `False` — the traversal does not stop, contrary to the docstring.) -/
+theorem prune_spec (emp : π → Bool) (mk : π) (cfg : Cfg) (pred : Nat → Int → π → Bool) (sp : Option Nat)
+    (os oe : Option Int) (f : Fib Int π) (hs : Sorted f) (hl : startLegal sp f = true)
+    (hv : ∀ i, sp = some i → cfg.fmt = .U ∨ validStart emp none none i f = true) :
+    prune emp mk cfg pred sp os oe f = .ok (pruneSpec emp mk cfg pred os oe f) :=
+  prune_eq_spec emp mk cfg pred sp os oe hs hl (iter_dispatch emp mk cfg sp f hs hv).1
+
+/-- pruning keeps order and takes nothing but what the default traversal presents -/
+theorem pruneSpec_sublist (emp : π → Bool) (mk : π) (cfg : Cfg) (pred : Nat → Int → π → Bool) (os oe : Option Int)
+    (f : Fib Int π) : (pruneSpec emp mk cfg pred os oe f).Sublist (iterDefaultSpec emp mk cfg f) := by
+  unfold pruneSpec
+  have h1 : ((iterDefaultSpec emp mk cfg f).zipIdx.filter
+      (fun x => !emp x.1.2.2 && pred x.2 x.1.1 x.1.2.2 && geStart os x.1.1 && !geEnd oe x.1.1)).Sublist
+      (iterDefaultSpec emp mk cfg f).zipIdx := List.filter_sublist
+  have h2 := h1.map (·.1)
+  rwa [List.zipIdx_map_fst] at h2
+
+end lazy
+
+/-- **lazily produced fibers materialise to equal eager fibers**: `Fiber.fromLazy` of a lazy
+    fiber presenting the ascending list `ys` is the recursive non-empty copy of the eager fiber
+    `ys`, hence `==` to it (C12's equality). -/
+theorem fromLazy_eq {ν : Type} [DecidableEq ν] (dflt : ν) (d : Nat) (ys : Tree Int ν (d + 1)) (hw : WF (d + 1) ys) :
+    fromLazy dflt d (show List (Int × Tree Int ν d) from ys) = nonEmpty dflt (d + 1) ys ∧
+    fiberEq dflt dflt (d + 1) (fromLazy dflt d (show List (Int × Tree Int ν d) from ys)) ys = true := by
+  have h := fromLazy_eq_nonEmpty dflt d (show List (Int × Tree Int ν d) from ys) hw.sorted
+  refine ⟨h, ?_⟩
+  rw [h]
+  exact nonEmpty_eq dflt d ys hw
+
 /-! ### non-vacuity -/
 
 example : Sorted ([(0, (0 : Int)), (2, 5), (3, 0), (6, 7)] : Fib Int Int) := (sortedB_iff _).1 (by decide)
@@ -193,5 +325,28 @@ example : strip (iterRange (fun v : Int => v == 0) (some (1 : Int)) (some 6) non
     = [(2, 5)] := by decide
 #guard (shapeRefLoop (0 : Int) [(1, 5)] (pyRange 0 3 1)) == ([(0, 0), (1, 5), (2, 0)], [(0, 0), (1, 5), (2, 0)])
 #guard pyRange (-1) 6 3 == [-1, 2, 5]
+
+/-! ### the three excluded classes are real: the model (= the code) does not meet `projectSpec` there -/
+
+private def c07_emp (dflt : Int) : Int → Bool := fun v => v == dflt
+
+/-- `h1`: `Fiber([2],[0]).project(lambda c: c-2)` raises `StopIteration` -/
+example : project (c07_emp 0) (c07_emp 0) 0 {} 1 (-2) none none none none [(2, 0)] = .error .stopIteration := by rfl
+example : projectSpec (c07_emp 0) 1 (-2) none none none [(2, (0 : Int))] = [] := by decide
+/-- `h2`: `Fiber([2],[0],default=7).project(lambda c: -c-2)` yields nothing, should yield `(-4, 0)` -/
+example : project (c07_emp 7) (c07_emp 0) 7 {} (-1) (-2) none none none none [(2, 0)] = .ok [] := by rfl
+example : projectSpec (c07_emp 7) (-1) (-2) none none none [(2, (0 : Int))] = [(-4, (some 0, 0))] := by decide
+/-- `h3`: `Fiber([0,2],[5,1]).project(lambda c: c-2, interval=(-1,1), start_pos=1)` is rejected although valid -/
+example : project (c07_emp 0) (c07_emp 0) 0 {} 1 (-2) (some (-1, 1)) (some 1) none none [(0, 5), (2, 1)]
+    = .error .assertion := by rfl
+example : projValidStart (c07_emp 0) 1 (-2) (some (-1, 1)) 1 [(0, (5 : Int)), (2, 1)] = true := by decide
+example : projectSpec (c07_emp 0) 1 (-2) (some (-1, 1)) none none [(0, (5 : Int)), (2, 1)] = [(0, (some 1, 1))] := by decide
+/-- the hypotheses of `project_spec_partial` are satisfiable by non-trivial values (decreasing
+    transform with interval; increasing transform with a positive valid shortcut) -/
+example : project (c07_emp 0) (c07_emp 0) 0 {} (-2) 10 (some (1, 9)) none none none [(0, 0), (1, 5), (3, 6), (5, 7)]
+    = .ok [(4, (some 2, 6)), (8, (some 1, 5))] := by rfl
+example : noStop (c07_emp 0) [(0, (0 : Int)), (1, 5), (3, 6), (5, 7)] = true := by decide
+example : projValidStart (c07_emp 0) 1 10 (some (12, 20)) 2 [(0, (0 : Int)), (1, 5), (3, 6), (5, 7)] = true ∧
+    projStartOk (some (12, 20)) (some 2) [(0, (0 : Int)), (1, 5), (3, 6), (5, 7)] = true := by decide
 
 end Ft
